@@ -237,8 +237,8 @@ def run(ctx):
         vio += v
         dist["main_history_runs"] = dist.get("main_history_runs", 0) + ran
     # sessions saved deep into long terminal lists (harness/deep_restore.py): the save state is built directly
-    vio += deep_restore.explore(ctx, ctx.scale(3, 8), ctx.scale(500, 1000), ctx.scale(1000, 1800), ctx.scale(500000, 1500000),
-                                ctx.scale(2000, 10000), dist, samples)
+    vio += deep_restore.explore(ctx, ctx.scale(3, 6), ctx.scale(500, 1000), ctx.scale(1000, 1800), ctx.scale(500000, 1200000),
+                                ctx.scale(2000, 8000), dist, samples)
     # ... and scaled-down instances of the same family, run to exhaustion, for the model
     for rs, g, m, B in deep_restore.small_cases(ctx, ctx.scale(4, 24)):
         vm, table, bases = rulesets.model_tables(g)
